@@ -684,6 +684,67 @@ theorem prepared_table_pure (base : Env) (g : Drg) (G ff : Nat) (hitPolicy : Str
     ∀ v s', (preparedTable (level base g G ff).env hitPolicy inputs outputs rules).answer h₁ s = .ok (v, s') → s' = s :=
   ⟨rfl, rfl, fun v s' hv => dt_scope_preserved base g G ff hitPolicy inputs outputs rules s v s' hv⟩
 
+/-- the boxed-expression evaluator of the model layer — literal expression, boxed context, invocation, relation,
+function definition, decision table, a decision service called as a function, nested in any way — prepared for
+one boxed expression -/
+def preparedBoxed (env : Env) (a : Ast) : Prepared Unit (Outcome (Value × Scope)) :=
+  { init := (), step := fun _ s => (evalBoxed env a s, ()) }
+
+/-- **A prepared boxed expression answers as if evaluated for the first time**, whatever boxed expression it is
+(context, invocation, relation, decision table, a function definition or a decision service called inside, at any
+nesting) and whatever was evaluated before, and leaves the scope exactly as found (the entries of a boxed context
+are gone when it returns). -/
+theorem prepared_boxed_pure (base : Env) (g : Drg) (G ff : Nat) (a : Ast) (h₁ h₂ : List Scope) (s : Scope) :
+    (preparedBoxed (level base g G ff).env a).answer h₁ s = (preparedBoxed (level base g G ff).env a).answer h₂ s ∧
+    (preparedBoxed (level base g G ff).env a).answer h₁ s = evalBoxed (level base g G ff).env a s ∧
+    ∀ v s', (preparedBoxed (level base g G ff).env a).answer h₁ s = .ok (v, s') → s' = s :=
+  ⟨rfl, rfl, fun v s' hv => boxed_scope_preserved base g G ff a s v s' hv⟩
+
+/-- non-vacuity: the prepared boxed context `{a: 1, b: a}` after the history (C, B) answers the scope A as a fresh
+one does — with its two entries — and A is as before. -/
+example :
+    (preparedBoxed purityWitnessEnv purityWitnessLogic).answer [[[("c", .null)]], []] [[("x", .null)]] =
+      .ok (.ctx [("a", .num ⟨false, 1, 0⟩), ("b", .num ⟨false, 1, 0⟩)], [[("x", .null)]]) := rfl
+
+/-- `evaluate_invocable` of a built model (decision, business knowledge model or decision service, by name),
+prepared once: the input data of a call is the top context of the scope handed in -/
+def preparedInvocable (base : Env) (g : Drg) (ff gf : Nat) (name : String) : Prepared Unit (Outcome Value) :=
+  { init := (), step := fun _ s => (evaluateInvocable base g ff gf name (Scope.peek s), ()) }
+
+/-- **A built model answers every input as if it were its first**: for every requirement graph, every invocable
+(decision, knowledge model, decision service — whatever its logic: literal, boxed context, invocation, relation,
+decision table), every fuel and every history of evaluations with other input data, in any order
+(A, B, A, C, B …), the answer to the input data `input` is `evaluateInvocable … input`; the model evaluator has no
+other argument and keeps nothing between calls.  (Immediate in the model; that the code's `ModelEvaluator` is
+such a machine is what the `reuse`-style histories of the correspondence observe, and a machine that keeps
+something is not: `memoising_machine_depends_on_history`.) -/
+theorem prepared_drg_pure (base : Env) (g : Drg) (ff gf : Nat) (name : String) (h₁ h₂ : List Scope) (input : Ctx) :
+    (preparedInvocable base g ff gf name).answer h₁ [input] = (preparedInvocable base g ff gf name).answer h₂ [input] ∧
+    (preparedInvocable base g ff gf name).answer h₁ [input] = evaluateInvocable base g ff gf name input :=
+  ⟨rfl, rfl⟩
+
+/-- a machine that keeps its first answer (a result cached per evaluator, whatever the input) -/
+def memoising {α : Type} (f : Scope → α) : Prepared (Option α) α :=
+  { init := none,
+    step := fun st s =>
+      match st with
+      | some o => (o, st)
+      | none => (f s, some (f s)) }
+
+/-- **Sensitivity**: a machine that keeps its first answer is not history independent — as soon as the
+underlying evaluator distinguishes two inputs `a` and `b`, the answer to `b` after `a` is the answer to `a`, not
+the fresh answer. -/
+theorem memoising_machine_depends_on_history {α : Type} (f : Scope → α) (a b : Scope) (h : f a ≠ f b) :
+    (memoising f).answer [a] b = f a ∧ (memoising f).answer [] b = f b ∧
+      (memoising f).answer [a] b ≠ (memoising f).answer [] b ∧ ¬ (memoising f).Stateless := by
+  refine ⟨rfl, rfl, h, ?_⟩
+  intro hs
+  exact h (hs (some (f a)) none b)
+
+/-- non-vacuity: an evaluator that answers the number of contexts of the scope -/
+example : (memoising (fun s => s.length)).answer [[]] [[]] ≠ (memoising (fun s => s.length)).answer [] [[]] :=
+  (memoising_machine_depends_on_history (fun s => s.length) [] [[]] (by decide)).2.2.1
+
 end Dmn.Drg
 
 namespace Dmn.Eval
